@@ -366,6 +366,28 @@ def reference_examples_suite():
             O.fail('C04.reference_example_is_not_an_expression', {'reference_example': expr, 'directive': kind}, 'parses', str(e)[:120], 'parse_expression on the example text from commands/reference.py')
 
 
+def engine_suite():
+    """MerchantEngine.match over single-rule files: top-level variables are user variables like any other - a later one may use an earlier one"""
+    from tally.merchant_engine import parse_merchants
+    cases = [
+        ('is_large = amount > 10\nis_march = month == 3\nsplurge = is_large and is_march\n', 'splurge', True),
+        ('is_large = amount > 10\nis_may = month == 5\nsplurge = is_large and is_may\n', 'splurge', False),
+        ('base = 10\nlimit = base + 5\nover = amount > limit\n', 'over', True),
+        ('base = 10\nlimit = base + 6\nover = amount > limit\n', 'over', False),
+        ('a = 1\nb = a + 1\nc = b + 1\n', 'c == 3', True),
+        ('later = first + 1\nfirst = 1\n', 'first == 1', True),
+    ]
+    for header, cond, want in cases:
+        text = header + '\n[R]\nmatch: %s\ncategory: C\n' % cond
+        O.case(('engine', text))
+        try:
+            got = parse_merchants(text).match(dict(TXN), data_sources=ROWS).matched
+        except Exception as e:
+            got = '%s: %s' % (type(e).__name__, e)
+        if got != want:
+            O.fail('C04.engine.top_level_variables_see_earlier_ones', {'engine_rules': text}, want, got, 'parse_merchants(text).match(txn).matched')
+
+
 def main():
     replay_models()
     if O.witness:
@@ -383,6 +405,8 @@ def main():
             filter_suite()
         elif 'reference_example' in w:
             reference_examples_suite()
+        elif 'engine_rules' in w:
+            engine_suite()
         elif w['expr'] in MUST_FAIL:
             scope_suite()
         else:
@@ -393,6 +417,7 @@ def main():
         O.finish()
     table_suite()
     reference_examples_suite()
+    engine_suite()
     diff_suite()
     bool_suite()
     scope_suite()
